@@ -163,6 +163,9 @@ func (bA *BitArray) Sub(o *BitArray) *BitArray {
 	}
 	bA.mtx.Lock()
 	defer bA.mtx.Unlock()
+	if o == nil {
+		return bA.copy() // nothing to subtract
+	}
 	if bA.Bits > o.Bits {
 		c := bA.copy()
 		for i := 0; i < len(o.Elems)-1; i++ {
